@@ -42,8 +42,10 @@ RULE = ("one case = one outer optimizer step on a real Plan (plus all inner opti
         "bounds, 0-2 non-linear constraints, 1-2 objectives, 1-3 realizations. Nested: inner plan with the complementary mask "
         "and its own scripted requests, delivering one of its results (or none), also between a function request and the "
         "gradient-only request at the same free point. VariableScaler with power-of-two scales (non-nested, no explicit "
-        "variables=). Non-trivial = the mask fixes at least one variable and at least one evaluation happened; distinct = "
-        "distinct case hash.")
+        "variables=). Perturbation types per variable: RELATIVE on 30% of the variables with finite bounds; in 7% of the masked "
+        "runs a FIXED variable is RELATIVE with an infinite bound (must be rejected at configuration time: outcome kind compared, "
+        "counted as trivial). Non-trivial = the mask fixes at least one variable and at least one evaluation happened; distinct "
+        "= distinct case hash.")
 ASSUMPTIONS = [
     "initial values and explicit start vectors are inside the bounds, and so are the values a nested optimization delivers for the outer optimization's fixed variables (the scripted inner optimizer requests only points inside the bounds)",
     "nested plans and explicit variables= start vectors are run without variable transforms (with them the run hits known finding C11:explicit-step-variables); VariableScaler is exercised in non-nested runs without an explicit variables= argument, with power-of-two scales and dyadic offsets so that the user/optimizer round trip is exact",
@@ -59,6 +61,7 @@ TRUSTED = [
 ]
 
 NONE, TRUNC, MIRROR = 1, 2, 3
+ABSOLUTE, RELATIVE = 1, 2
 INF = math.inf
 BUILTIN_SAMPLERS = ["norm", "uniform", "truncnorm", "sobol", "halton", "lhs"]
 SCIPY_METHODS = ["slsqp", "nelder-mead", "differential_evolution", "de-parallel"]
@@ -170,6 +173,19 @@ def gen_one(rng, mask_hint=-1, force=None):
     x0 = [_inside(rng, lb, ub) for lb, ub in bounds]
     bts = [rng.choice([NONE, TRUNC, MIRROR, MIRROR]) for _ in range(V)]
     mags = [rng.randint(1, 8) / 8 for _ in range(V)]
+    # perturbation types: RELATIVE (magnitude = fraction of the bound range) only where both bounds are finite ...
+    pts = [RELATIVE if (math.isfinite(lb) and math.isfinite(ub) and rng.random() < 0.3) else ABSOLUTE for lb, ub in bounds]
+    # ... except in the "relative-on-fixed" region: a FIXED variable of RELATIVE type with an infinite bound.  The
+    # configuration must be rejected at validation time (fix_perturbations); if it were accepted the fixed variable would get
+    # an infinite magnitude and inf * 0 = NaN would replace its value in every perturbed vector
+    rel_fixed = None
+    if mask is not None and not all(mask) and force.get("rel_fixed", rng.random() < 0.07):
+        k = rng.choice([i for i, m in enumerate(mask) if not m])
+        lb, ub = bounds[k]
+        if not finite:      # differential evolution needs finite bounds on every variable
+            bounds[k] = (lb if math.isfinite(lb) else x0[k] - 1.0, INF) if rng.random() < 0.5 else (-INF, ub if math.isfinite(ub) else x0[k] + 1.0)
+            pts[k] = RELATIVE
+            rel_fixed = k
     eff_mask = mask if mask is not None else [True] * V
     can_nest = mask is not None and not all(mask) and opt_kind == "scripted"
     nested = force.get("nested", can_nest and rng.random() < 0.45)
@@ -188,8 +204,8 @@ def gen_one(rng, mask_hint=-1, force=None):
     if scaler is None and force.get("start", rng.random() < 0.4):
         start = [_inside(rng, lb, ub) for lb, ub in bounds]
     case = {"V": V, "R": R, "P": P, "x0": x0, "lbs": [b[0] for b in bounds], "ubs": [b[1] for b in bounds], "mask": mask,
-            "bts": bts, "mags": mags, "gs": gs, "samplers": sconfs, "nc": nc, "nobj": nobj, "scaler": scaler,
-            "seed": rng.randint(1, 10 ** 6), "nested": None, "start": start,
+            "bts": bts, "mags": mags, "pts": pts, "rel_fixed": rel_fixed, "gs": gs, "samplers": sconfs, "nc": nc, "nobj": nobj,
+            "scaler": scaler, "seed": rng.randint(1, 10 ** 6), "nested": None, "start": start,
             # the same step object has already run once (from the configured initial values) on the same plan
             "warmup": force.get("warmup", rng.random() < 0.15),
             # the scripted optimizer overwrites, in place, the arrays it was handed (initial values, returned functions
@@ -213,7 +229,7 @@ def gen_one(rng, mask_hint=-1, force=None):
 
 
 def gen_cases(tier, rng):
-    n_rot, n_big = (480, 70) if tier == "quick" else (7200, 900)
+    n_rot, n_big = (480, 70) if tier == "quick" else (5600, 700)
     for i in range(n_rot):
         yield gen_one(rng, mask_hint=i)
     for _ in range(n_big):
@@ -247,6 +263,7 @@ def _config_dict(case, mask, script, tag, gs, sconfs):
         "objectives": {"weights": [1.0] if case["nobj"] == 1 else [0.75, 0.25]},
         "realizations": {"weights": [1.0] * case["R"]},
         "gradient": {"number_of_perturbations": case["P"], "perturbation_magnitudes": case["mags"],
+                     "perturbation_types": case.get("pts", [ABSOLUTE] * V),
                      "boundary_types": case["bts"], "seed": case["seed"]},
         "optimizer": optimizer,
         "samplers": [({"method": "verif/scripted", "options": {"script": s["script"]}} if s["kind"] == "scripted"
@@ -603,14 +620,46 @@ def _run_term(case, obs, k):
         cq.qs(run["seen_start"] or []), cq.opt(run["x0"], cq.qs), nb, cq.lst(cbs)))
 
 
+_SENTINEL = {"nan": 2.0 ** 90, "inf": 2.0 ** 89, "-inf": -(2.0 ** 89)}
+
+
+def _finite_obs(o):
+    """observations may contain NaN / inf on a broken tree; Q has neither: print a huge sentinel (the comparison then
+    fails inside Coq and the oracle names the clause)"""
+    if isinstance(o, float) and not math.isfinite(o):
+        return _SENTINEL["nan" if math.isnan(o) else "inf" if o > 0 else "-inf"]
+    if isinstance(o, list):
+        return [_finite_obs(v) for v in o]
+    if isinstance(o, dict):
+        return {k: (v if k in ("lbs", "ubs") else _finite_obs(v)) for k, v in o.items()}
+    return o
+
+
+def _rejected(obs):
+    return not obs["runs"] and obs.get("exc") in ("ValidationError", "ValueError")
+
+
 def coq_case(case, obs):
-    return "(Build_case {})".format(cq.lst(_run_term(case, obs, k) for k in range(len(obs["runs"]))))
+    V = case["V"]
+    obs = {**obs, "runs": [_finite_obs(r) for r in obs["runs"]]}
+    return "(Build_case {} {} {} {} {} {})".format(
+        cq.zs(case.get("pts", [ABSOLUTE] * V)), cq.ers(case["lbs"]), cq.ers(case["ubs"]), cq.qs(case["mags"]),
+        cq.b(_rejected(obs)), cq.lst(_run_term(case, obs, k) for k in range(len(obs["runs"]))))
 
 
 # ---------------------------------------------------------------------------------------------------
 # oracle: the property text evaluated on the recorded run (no model)
+def _must_reject(case):
+    """a RELATIVE variable (free or fixed) with an infinite bound: there is no bound range to take a fraction of"""
+    return any(p == RELATIVE and not (math.isfinite(lb) and math.isfinite(ub))
+               for p, lb, ub in zip(case.get("pts", []), case["lbs"], case["ubs"]))
+
+
 def oracle(case, obs):  # noqa: C901, PLR0912
     runs = obs["runs"]
+    if _must_reject(case) and _rejected(obs):
+        return None      # rejected at configuration time, nothing ran: the property holds vacuously
+    # (if such a configuration is accepted the run is judged like any other: the fixed variable must keep its value)
     if not runs:
         return {"clause": "no-optimizer-run", "detail": obs.get("exc")}
     V = case["V"]
@@ -630,7 +679,7 @@ def oracle(case, obs):  # noqa: C901, PLR0912
         where = {"run": k, "tag": run["tag"], "mask": mask}
 
         def moved(vec, ref):
-            return [i for i in fixed if vec[i] != ref[i]]
+            return [i for i in fixed if not (vec[i] == ref[i])]      # NaN counts as moved
 
         if run["seen_start"] is not None and (len(run["seen_start"]) != V or run["seen_start"] != cur_opt):
             return {"clause": "optimizer-started-from-another-vector", "detail": {**where, "got": run["seen_start"], "want": cur_opt}}
@@ -671,6 +720,8 @@ def oracle(case, obs):  # noqa: C901, PLR0912
 
 # ---------------------------------------------------------------------------------------------------
 def nontrivial(case, obs):
+    if _rejected(obs):
+        return False
     return case["mask"] is not None and not all(case["mask"]) and any(cb["evals"] for r in obs["runs"] for cb in r["cbs"])
 
 
@@ -682,6 +733,8 @@ def features(case, obs):
     return {"V": case["V"], "mask": kind, "optimizer": o["kind"] if o["kind"] == "scripted" else o["method"],
             "nested": case["nested"] is not None, "scaler": case["scaler"] is not None,
             "start": "explicit" if case.get("start") is not None else "configured", "warmup": bool(case.get("warmup")),
+            "relative": RELATIVE in case.get("pts", []), "relative_on_fixed_infinite": case.get("rel_fixed") is not None,
+            "rejected": _rejected(obs),
             "scribble": bool(case.get("scribble")) and o["kind"] == "scripted",
             "explicit_start_batch": case.get("start") is not None and (
                 o.get("method") == "de-parallel" or any(r["batch"] for r in o.get("script", []))),
